@@ -23,7 +23,7 @@ func init() {
 			"D5 the field-type dispatch that validates and rebuilds binary points covers the five field types; " +
 			"D7 a float token in scientific notation is accepted by scanNumber only on paths where parseFloatBytes validated it (the scanner itself does not check the exponent's syntax); " +
 			"D6 a malformed line is rejected without affecting the other lines: per loop iteration of ParsePointsWithPrecision a line whose parse failed is recorded and not kept, a line whose parse succeeded is kept, no line aborts the loop, and recorded failures surface as the call's error. " +
-			"NOT decided: numeric parsing, timestamp precision arithmetic (overflow tests in SafeCalcTime), UTF-8 handling, exact float formatting.",
+			"NOT decided: numeric parsing, timestamp precision arithmetic (overflow tests in SafeCalcTime), UTF-8 handling, exact float formatting. D5 also: every case of the binary-point validation switch can reject.",
 		RuleText:    "obligation = (rule, function, site | table row); wire-length guard analysis; definition provenance of comparison operands; outcome facts; typed-AST table extraction; enum exhaustiveness; per-iteration marked path exploration",
 		Assumptions: commonAssumptions,
 	}, runC12)
